@@ -30,17 +30,17 @@ CHECKS = {
   note="Trusted: the harness's reference list and the rendering of the property's clauses (Append/Add append one entry at the end; Set may overwrite every entry with the tag). Single caller goroutine by the container's contract. The library under test is an instrumented scratch copy of /repo's working tree (a yield call before every statement, otherwise identical)."),
  "C13": dict(
   level="exploration",
-  text="Seeded search over Append/Contains/Remove/Count histories on all six collection kinds (item list, IRI list, Collection, OrderedCollection and their pages; through their own methods, through CollectionInterface and, for Remove, through the item-list view) against an insertion-ordered-set reference model, with capacity/aliasing knobs; exhaustive up to a stated small bound in the thorough tier, seeded beyond; minimised exact replays.",
-  ref="§5.1", technique="deterministic simulation: seeded + bounded-exhaustive history generation, refinement against an insertion-ordered-set model, tape-shrinking minimiser, exact replay (no fault or schedule dimension exists)",
-  note="Trusted: the reference model and the identity function of pool items (pairwise distinct ids; list-valued properties of pool items carry ids, as the properties' own domain states). Single caller goroutine by contract."),
+  text="Seeded search over Append/Contains/Remove/Count histories on all six collection kinds (item list, IRI list, Collection, OrderedCollection and their pages; through their own methods, through CollectionInterface and, for Remove, through the item-list view) against an insertion-ordered-set reference model, with capacity/aliasing knobs; exhaustive up to a stated small bound, seeded beyond (big runs with pools of 20..80 items and 150 calls); in the clients mode two or three independent collections are driven by tasks under the seeded statement-level scheduler and each is checked against its own model (package-level state inside the library that no sequential history can see); minimised exact replays.",
+  ref="§5.1", technique="deterministic simulation: seeded + bounded-exhaustive history generation, refinement against an insertion-ordered-set model, seeded statement-level scheduler over independent clients, tape-shrinking minimiser, exact replay (no fault dimension exists)",
+  note="Trusted: the reference model and the identity function of pool items (pairwise distinct ids, URL-shaped and opaque; what the items hold in their own lists may lack ids). One caller goroutine per collection by contract."),
  "C04": dict(
   level="fault_enumeration",
-  text="Writer -> faulty wire/disk -> reader simulation: every encoding the library (or a repository mock) produces is damaged by storage/transport faults (torn write at every offset, single-bit flips at every position, chunk drop/duplicate/zero/swap, stale tail, splice; composed up to three in the seeded tier) and handed to every exported decode entry point; whatever value comes back is inspected, compared, re-encoded in both codecs and formatted. Oracles: no panic, no process death (stack overflow, fatal throw with checkptr on), no hang in simulated steps, bounded allocation. Decides C04 for byte strings within three faults of a produced encoding, not for all byte strings.",
+  text="Writer -> faulty wire/disk -> reader simulation: every encoding the library, a repository mock, a peer-style JSON writer or a foreign-schema gob writer produces is damaged by storage/transport faults (torn write at every offset, single-bit flips at every position, chunk drop/duplicate/zero/swap, stale tail, splice, and record-level faults of a field-granular store: a text cut at a column width, a lost field, a value written under the wrong key, two values swapped; composed up to three in the seeded tier) and handed to every exported decode entry point; whatever value comes back is inspected, compared, re-encoded in both codecs and formatted. Oracles: no panic, no process death (stack overflow, fatal throw with checkptr on), time proportional to the input in simulated time (executed statements plus bytes handed to bulk primitives), bounded allocation and retention. Decides C04 for byte strings within three faults of a produced encoding, not for all byte strings.",
   ref="§4", technique="deterministic simulation with fault injection: fault-enumerating and seeded faulty wire between real encoder and real decoders, process-isolated crash oracle, minimised exact replays",
-  note="Trusted: the Go runtime's checkptr instrumentation (turns an out-of-bounds pointer view into a deterministic throw), the step counter inserted by the instrumenter, the parent's death classification. Hostile shapes no fault produces (300-deep nesting, huge numbers) are outside this check."),
+  note="Trusted: the Go runtime's checkptr instrumentation (turns an out-of-bounds pointer view into a deterministic throw), the step counter inserted by the instrumenter, the parent's death classification. Inputs that are neither a damaged encoding nor a peer's spelling (nesting beyond 32 levels, byte strings built to collide or exhaust) are outside this check."),
  "C12": dict(
   level="exploration",
-  text="N caller goroutines (2..6 tasks) apply read-only operations to one shared vocabulary value and decode private inputs under a seeded scheduler that decides every interleaving at library-statement granularity (random walk, PCT, preempt-at-site); four oracles: ThreadSanitizer (tasks handed off through raw pipe syscalls so they stay unordered for the race detector), deep write-freedom fingerprint over the whole reachable memory incl. spare slice capacity at switches and operation returns, equality of every result with the sequential result (incl. values a task decoded earlier and kept), and no overlap between an encoder's returned bytes and the shared value. Cold-start runs (first run of a fresh process, concurrent phase before any sequential pass) expose unsynchronised lazy initialisation; Lock/RLock/Once.Do are made cooperative so that correctly synchronised code stays quiet. Seeded sampling of schedules; failing schedules are minimised (fewer tasks, ops, switches) and replay exactly.",
+  text="N caller goroutines (2..6 tasks) apply read-only operations to one shared vocabulary value and decode private inputs under a seeded scheduler that decides every interleaving at library-statement granularity (random walk, PCT, preempt-at-site); four oracles: ThreadSanitizer (tasks handed off through raw pipe syscalls so they stay unordered for the race detector), deep write-freedom fingerprint over the whole reachable memory incl. spare slice capacity at switches and operation returns, equality of every result with the sequential result (incl. values a task decoded earlier and kept), and no overlap between an encoder's returned bytes and the shared value. Cold-start runs (first run of a fresh process, concurrent phase before any sequential pass) expose unsynchronised lazy initialisation; the library's clock reads are redirected to a simulated clock that jumps forwards and backwards between and inside operations (clock faults); deadlock detection; Lock/RLock/Once.Do are made cooperative so that correctly synchronised code stays quiet. Seeded sampling of schedules; failing schedules are minimised (fewer tasks, ops, switches) and replay exactly.",
   ref="§3", technique="deterministic simulation: seeded statement-granularity scheduler over real goroutines + race detector + memory fingerprint + sequential-equivalence oracle, schedule minimisation, exact replay",
   note="Trusted: ThreadSanitizer, the instrumenter's yield placement (segments inside dependencies are atomic in the simulation, though their accesses are still seen by the race detector), the fingerprint walker. Mutators are excluded by an explicit, justified list."),
 }
